@@ -10,7 +10,7 @@ use crate::gosem::GoVerdict;
 use crate::oracle::*;
 use serde_json::{Value, json};
 
-pub const HOSTILE: [&str; 90] = [
+pub const HOSTILE: [&str; 95] = [
     // Go keywords that are not goml keywords
     "break", "case", "chan", "const", "continue", "default", "defer", "fallthrough", "func", "goto", "interface", "map", "range", "select", "switch", "var",
     // predeclared identifiers and package names the output relies on
@@ -26,10 +26,12 @@ pub const HOSTILE: [&str; 90] = [
     // the entry point's names (only Main's `main` is the entry point)
     "main", "init",
     "apply", "isE", "data", "vtable", "value", "reference", "arr", "index", "self", "a__0", "a__1", "x__0", "f__2", "S", "E",
+    // how a local `f` is spelled in the Go text, for every index it can get in the small templates
+    "f__0", "f__1", "f__3", "f__4", "f__5",
 ];
 
-pub const ROLES: [&str; 17] =
-    ["lib-fn", "lib-struct", "lib-variant", "fn", "param", "local", "patvar", "closure-param", "struct", "field", "enum", "variant", "trait", "method", "tparam", "fn-and-local", "fn-called-in-closure"];
+pub const ROLES: [&str; 18] =
+    ["lib-fn", "lib-struct", "lib-variant", "fn", "param", "local", "patvar", "closure-param", "struct", "field", "enum", "variant", "trait", "method", "tparam", "fn-and-local", "fn-called-in-closure", "fn-next-to-captured-function-local"];
 
 const BENIGN: &str = "zzq";
 
@@ -73,6 +75,12 @@ fn template(role: &str) -> (&'static str, &'static str) {
         "fn-and-local" => (
             "fn {N}(a: int32) -> int32 { a * 2 }\nfn main() { let a = 1; let x = 2; let f = 3; let t = 4; let ret = 5; let r = {N}(a + x + f + t + ret); string_println(int32_to_string(r)) }\n",
             "30\n",
+        ),
+        // a closure captures a function-typed local `f` and calls the top-level function {N}: if {N} is
+        // spelled like the local's Go name, the call silently goes to the local
+        "fn-next-to-captured-function-local" => (
+            "fn small(a: int32) -> int32 { a + 6 }\nfn {N}(a: int32) -> int32 { a + 300 }\nfn main() { let f = small; let c = |q: int32| {N}(q) + f(0); string_println(int32_to_string(c(1))) }\n",
+            "307\n",
         ),
         _ => (
             "fn {N}(a: int32) -> int32 { a * 2 }\nfn main() { let k = 1; let c = |q: int32| {N}(q + k); string_println(int32_to_string(c(2))) }\n",
@@ -254,7 +262,7 @@ impl Family for NamesFamily {
         &["C19", "C02", "C04"]
     }
     fn rule(&self) -> &'static str {
-        "90 hostile identifiers (Go keywords that goml allows, predeclared identifiers, runtime helper names, the builtins expanded at their call sites, compiler temporaries, generated type/helper names, spellings of the compiler's own type representation, the entry point's names, mangling look-alikes such as a__0) x 17 roles (fn / struct / variant of an imported package, fn, param, local, pattern variable, closure parameter, struct, field, enum, variant, trait, method, type parameter, fn next to temporaries, fn called from a closure) plus 14 collision witnesses for generated names, plus 28 programs declaring two entities of one name in one namespace (functions, types, traits, parameters of functions/methods/impl methods, variants, fields, extern vs fn, methods of one impl, one binder twice in a tuple / nested / constructor / struct pattern or in a closure's parameter list) that must be rejected, plus 29 programs of nested matches on two enum-typed variables (every word of length <= 4 over {x, y} beginning with x as the scrutinees from the outside in; the innermost level also inside a closure called at once) and 7 programs in which re-matches of the variable stand next to each other inside an arm of a match on it (with a match on the other variable, an if or a closure between or around them), whose Go type switches rebind the scrutinee's identifier inside their cases; oracle: emitted Go passes the Go checker and prints exactly what the twin with a benign identifier prints (= the hard-wired expected output). non-trivial = cases whose hostile name survives into the Go text unescaped or mangled; distinct = distinct source text"
+        "95 hostile identifiers (Go keywords that goml allows, predeclared identifiers, runtime helper names, the builtins expanded at their call sites, compiler temporaries, generated type/helper names, spellings of the compiler's own type representation, the entry point's names, mangling look-alikes such as a__0) x 18 roles (a fn called from a closure that captures a function-typed local, fn / struct / variant of an imported package, fn, param, local, pattern variable, closure parameter, struct, field, enum, variant, trait, method, type parameter, fn next to temporaries, fn called from a closure) plus 14 collision witnesses for generated names, plus 28 programs declaring two entities of one name in one namespace (functions, types, traits, parameters of functions/methods/impl methods, variants, fields, extern vs fn, methods of one impl, one binder twice in a tuple / nested / constructor / struct pattern or in a closure's parameter list) that must be rejected, plus 29 programs of nested matches on two enum-typed variables (every word of length <= 4 over {x, y} beginning with x as the scrutinees from the outside in; the innermost level also inside a closure called at once) and 7 programs in which re-matches of the variable stand next to each other inside an arm of a match on it (with a match on the other variable, an if or a closure between or around them), whose Go type switches rebind the scrutinee's identifier inside their cases; oracle: emitted Go passes the Go checker and prints exactly what the twin with a benign identifier prints (= the hard-wired expected output). non-trivial = cases whose hostile name survives into the Go text unescaped or mangled; distinct = distinct source text"
     }
     fn cases(&self, _tier: Tier) -> Box<dyn Iterator<Item = Value> + '_> {
         let mut v = Vec::new();
